@@ -24,10 +24,15 @@ therefore the crossing-robust consequence of the statement:
     decouples literally from 3.16 TeV on (and then only rungs k >= 1 may serve as anchors).
 Accepted literal failures are counted (literal_step_failures_at_zero_crossing,
 literal_step_failures_first_rung) with one example each in the evidence, nothing else.
-Genuine numerical defect kept as known finding (2LB only): the bosonic two-loop result is
-cancellation noise at M >~ 10 TeV (|a| < 2e-15, or changing by > 1/8 of itself when M moves by
-1e-16 relative - measured with four perturbed copies of every rung); a 2LB step failure with |a|
-above that band goes through the decision above like any other."""
+Genuine numerical defect kept as known finding (2LB only): the bosonic two-loop result is cancellation
+noise at the top of the ladder.  The excuse does not depend on the code under test: a failing bosonic value
+carries its magnitude class (|a| < 2e-15, 2e-14, 2e-13, 2e-12 - constants of this check), Yukawa type,
+tan(beta) and rung in the key, and only the combinations the original shows are registered (findings); a
+noisier implementation lands in an unregistered class or above 2e-12 and is a violation.  In addition to the
+envelope the statement's own power law is checked on a finer ladder (half steps, M >= 10 TeV):
+|a(M)| <= 100 (1 TeV/M)^2 x max(|a| M^2/TeV^2 at 1, 1.78, 3.16 TeV), so a noise floor that grows with M
+cannot pass as a decaying signal.  (No absolute bound: the statement gives none, and the bosonic part is
+legitimately 2.8e-12 at 10 TeV for tan(beta) = 50, lambda_7 = -2.)"""
 import json
 import math
 import multiprocessing as mp
@@ -92,7 +97,6 @@ YUK_II = {
     6: ((0.0, 0.0, 0.0), ("0", "0", "0"), ("m22", "e12", "dense")),
 }
 RATIO = 0.45
-NOISE = 2e-15
 COMP = ((0, "1L"), (2, "2LF"), (3, "2LB"))
 
 
@@ -112,24 +116,21 @@ def family_i(a):
 
 
 HALF = 10.0 ** 0.25
-PERT = (-2, -1, 1, 2)      # m12^2 (1 + j 2^-51): perturbations of the heavy scale far below any physical effect
+# the ladder of (ii) with half steps: positions 0, 0.5, .., 3 in units of sqrt(10)-steps above 1 TeV;
+# even indices are the main rungs 1, sqrt(10), 10, 10 sqrt(10) TeV of the statement
+LADDER7 = [M_LADDER[j // 2] * (HALF if j % 2 else 1.0) for j in range(7)]
+# magnitude classes of the bosonic rounding-noise finding: fixed numbers, not measured from the code under test
+SIZE_CLASSES = (2e-15, 2e-14, 2e-13, 2e-12)
+POWER_C = 100.0        # generous constant of the (M0/M)^2 clause
 
 
 def family_ii(lam, tb, yt, ckm, run, smset="default"):
-    """4 rungs x (nominal + 4 perturbed copies used to measure the rounding noise of each rung)"""
+    """7 rungs: main ladder + half steps (finer ladder: a noise floor that grows with M is not a decaying signal)"""
     z, D, P = YUK_II[yt]
     sbcb = tb / (1.0 + tb * tb)
     cs = []
-    for M in M_LADDER:
-        m122 = M * M * sbcb
-        for j in (0,) + PERT:
-            p = [lam["l%d" % i] for i in range(1, 8)] + [tb, m122 * (1.0 + j * 2.0 ** -51)]
-            cs.append(T.case("G", p, ytype=yt, run=run, ckm=ckm, mhsm="auto", sm=SM_SETS[smset], z=z, D=D, P=P))
-    # half-step rungs M_n 10^(1/4): used only as additional anchors of the envelope (a contribution with two
-    # zeros, one near 1 TeV and one near 3 TeV, is accidentally small at two rungs of the main ladder)
-    for M in M_LADDER[:3]:
-        Mh = M * HALF
-        p = [lam["l%d" % i] for i in range(1, 8)] + [tb, Mh * Mh * sbcb]
+    for M in LADDER7:
+        p = [lam["l%d" % i] for i in range(1, 8)] + [tb, M * M * sbcb]
         cs.append(T.case("G", p, ytype=yt, run=run, ckm=ckm, mhsm="auto", sm=SM_SETS[smset], z=z, D=D, P=P))
     return cs
 
@@ -203,78 +204,94 @@ def check_i(cs, rs, out):
             st[nm] = max(st.get(nm, 0.0), spread / tol if tol > 0 else 0.0)
 
 
+def size_class(x):
+    for c in SIZE_CLASSES:
+        if x < c:
+            return "|a|<%g" % c
+    return None
+
+
 def check_ii(cs, rs, out):
     st = out["stats"]
     ty = T.TYPES[cs[0]["ytype"]]
-    nper = 1 + len(PERT)
-    desc = "lambda=%s tan(beta)=%g type %s" % (cs[0]["p"][:7], cs[0]["p"][7], ty)
+    tb = cs[0]["p"][7]
+    desc = "lambda=%s tan(beta)=%g type %s" % (cs[0]["p"][:7], tb, ty)
     st["ii:max|cba| at 1 TeV"] = max(st.get("ii:max|cba| at 1 TeV", 0.0), abs(rs[0].S[T.CBA]))
     for idx, name in COMP:
-        sg = [rs[n * nper].A[idx] for n in range(4)]
+        sg = [r.A[idx] for r in rs]                 # 7 rungs, position j/2
         a = [abs(x) for x in sg]
         if not all(x == x and x != float("inf") for x in a):
             out["fails"].append(("THDM.%s:nonfinite" % name, "%s not finite on the ladder: %r, %s" % (name, sg, desc), cs))
             continue
-        # measured rounding noise per rung: change under perturbations of M by a few 1e-16 relative
-        noise = [max(abs(rs[n * nper + 1 + q].A[idx] - sg[n]) for q in range(len(PERT))) for n in range(4)]
-        resolved = [a[n] > 8.0 * noise[n] for n in range(4)]
-        for n in range(4):
-            if a[n] > 0:
-                st["ii:max noise/|a| %s n=%d" % (name, n)] = max(st.get("ii:max noise/|a| %s n=%d" % (name, n), 0.0), noise[n] / a[n])
+        pos = [j / 2.0 for j in range(7)]
+        lad = "a_%s = %s at M = %s" % (name, ["%.4g" % x for x in sg], ["%.5g" % M for M in LADDER7])
 
-        # anchors: (position on the ladder in units of sqrt(10)-steps, |a|): main rungs 0,1,2,3 and half steps 0.5,1.5,2.5
-        anchors = [(float(n), a[n]) for n in range(4)] + [(n + 0.5, abs(rs[4 * nper + n].A[idx])) for n in range(3)]
+        def E(j, kmin):
+            """|a_j| <= 0.45^(pos_j - pos_k) |a_k| for some earlier rung k (main or half step) at position >= kmin"""
+            return a[j] <= max(RATIO ** (pos[j] - pos[k]) * a[k] for k in range(j) if pos[k] >= kmin)
 
-        def E(m, kmin):
-            """|a_m| <= 0.45^(m-k) |a_k| for some earlier anchor k >= kmin (power law through the steps)"""
-            return a[m] <= max(RATIO ** (m - k) * ak for k, ak in anchors if kmin <= k < m)
-
-        def noisy(q):
-            """only the bosonic part has a rounding-noise floor (documented finding): below 2e-15,
-            or changing by more than 1/8 of its value when M is moved by ~1e-16 relative"""
-            return name == "2LB" and (a[q] < NOISE or not resolved[q])
+        def report(clause, j, msg):
+            """a failure of the decision at rung j.  Bosonic values below 2e-12 carry their magnitude class,
+            Yukawa type, tan(beta) and rung in the key: only the classes the original is known to show are registered
+            as the rounding-noise finding; the class boundaries are constants of this check."""
+            sc = size_class(a[j]) if name == "2LB" else None
+            if sc:
+                key = "THDM.2LB:%s:%s:type=%s:tb=%g:M=%.5g" % (clause, sc, ty, tb, LADDER7[j])
+                out["noise"] += 1
+            else:
+                key = "THDM.%s:%s:M=%.5g" % (name, clause, LADDER7[j])
+            out["fails"].append((key, msg + ": " + lad + ", " + desc, cs))
 
         literal_ok = True
-        lad = "a_%s = %s at M = %s (half steps: %s)" % (name, ["%.4g" % x for x in sg], ["%.5g" % M for M in M_LADDER],
-                                                        ["%.4g" % rs[4 * nper + n].A[idx] for n in range(3)])
-        step_fail = [not (a[n + 1] <= RATIO * a[n]) for n in range(3)]
+        main = [0, 2, 4, 6]
+        step_fail = [not (a[main[n + 1]] <= RATIO * a[main[n]]) for n in range(3)]
+
+        def step_benign(n):
+            """step n >= 1 holds literally or is bounded by an earlier rung (zero crossing)"""
+            if name == "2LB" and size_class(a[main[n + 1]]):
+                return True      # reported on its own under its magnitude class (finding only where registered)
+            return not step_fail[n] or E(main[n + 1], 1.0)
+
         for n in range(3):
+            jm, jn = main[n + 1], main[n]
             if not step_fail[n]:
-                if resolved[n + 1] and a[n] > 0:
-                    st["ii:max passing ratio %s n=%d" % (name, n)] = max(st.get("ii:max passing ratio %s n=%d" % (name, n), 0.0), a[n + 1] / a[n])
+                if a[jn] > 0 and a[jm] >= SIZE_CLASSES[-1]:
+                    st["ii:max passing ratio %s n=%d" % (name, n)] = max(st.get("ii:max passing ratio %s n=%d" % (name, n), 0.0), a[jm] / a[jn])
                 continue
             literal_ok = False
-            m = n + 1
-            msg = "|a_%s(M=%.5g)| > 0.45 |a_%s(M=%.5g)| (ratio %.3f): %s, %s" % (
-                name, M_LADDER[m], name, M_LADDER[n], a[m] / a[n] if a[n] else float("inf"), lad, desc)
-            if noisy(m):
-                # genuine numerical defect (cancellation noise of the bosonic two-loop code), 2LB only
-                key = "THDM.2LB:step-ratio:|a|<2e-15" if a[m] < NOISE else "THDM.2LB:step-ratio:|a|<8x-measured-rounding-noise"
-                out["noise"] += 1
-                out["fails"].append((key, msg + "; measured rounding noise at M=%.5g: %.3g" % (M_LADDER[m], noise[m]), cs))
-            elif n == 0:
-                # first step from 1 TeV: not yet asymptotic (tan(beta) v^2/M^2 = O(1), or a zero just below 1 TeV)
-                # is correct behaviour provided the contribution decouples from the next rung on
-                later = (a[2] <= RATIO * a[1] or noisy(2)) and (a[3] <= max(RATIO * a[2], RATIO ** 2 * a[1]) or noisy(3))
-                if later:
+            msg = "|a_%s(M=%.5g)| > 0.45 |a_%s(M=%.5g)| (ratio %.3g)" % (name, LADDER7[jm], name, LADDER7[jn], a[jm] / a[jn] if a[jn] else float("inf"))
+            if n == 0:
+                # first step from 1 TeV: not yet asymptotic (tan(beta) v^2/M^2 = O(1), or a zero just below 1 TeV) is correct
+                # behaviour provided the contribution decouples from the next rung on (later failures are reported on their own)
+                if step_benign(1) and step_benign(2):
                     out["first_rung"] += 1
-                    out["ex_first_rung"] = out["ex_first_rung"] or msg
+                    out["ex_first_rung"] = out["ex_first_rung"] or (msg + ": " + lad + ", " + desc)
                 else:
-                    out["fails"].append(("THDM.%s:step-ratio:M=1000" % name, msg + " and no decoupling from 3.16 TeV on either", cs))
+                    report("step-ratio", jm, msg + " and no decoupling from 3.16 TeV on either")
+            elif E(jm, 0.0):
+                # |a| accidentally small at rung n (zero crossing): correct behaviour, an earlier rung bounds it
+                out["zero_crossing"] += 1
+                out["ex_zero_crossing"] = out["ex_zero_crossing"] or (msg + ": " + lad + ", " + desc)
             else:
-                # |a| accidentally small at rung n (zero crossing): correct behaviour provided the envelope from an earlier rung holds
-                if E(m, 0):
-                    out["zero_crossing"] += 1
-                    out["ex_zero_crossing"] = out["ex_zero_crossing"] or msg
-                else:
-                    out["fails"].append(("THDM.%s:step-ratio:M=%.4g" % (name, M_LADDER[n]), msg + " and no earlier rung bounds it", cs))
-        # envelope with the best earlier anchor (implied by 'at least like (v/M)^2', robust against a zero crossing)
-        kmin = 1 if step_fail[0] and not noisy(1) else 0
-        for m in range(2, 4):
-            if not noisy(m) and not E(m, kmin):
+                report("step-ratio", jm, msg + " and no earlier rung bounds it")
+        # envelope with the best earlier anchor on the finer ladder, M >= 10 TeV (positions 2, 2.5, 3)
+        kmin = 1.0 if step_fail[0] else 0.0
+        for j in (4, 5, 6):
+            if not E(j, kmin):
                 literal_ok = False
-                out["fails"].append(("THDM.%s:envelope:n=%d" % (name, m),
-                                     "|a_%s(M=%.5g)| exceeds 0.45^(n-k) |a_%s(M_k)| for every earlier rung k >= %d: %s, %s" % (name, M_LADDER[m], name, kmin, lad, desc), cs))
+                report("envelope", j, "|a_%s(M=%.5g)| exceeds 0.45^(n-k) |a_%s(M_k)| for every earlier rung k at position >= %g" % (name, LADDER7[j], name, kmin))
+        # power law from the property itself: at least like (v/M)^2 - |a(M)| <= C (1 TeV/M)^2 x the value scaled to 1 TeV
+        aref = max(a[k] * 10.0 ** pos[k] for k in (0, 1, 2))
+        for j in (4, 5, 6):
+            bound = POWER_C * 10.0 ** (-pos[j]) * aref
+            if not (a[j] <= bound):
+                literal_ok = False
+                report("power-law", j, "|a_%s(M=%.5g)| = %.3g > %g x (1 TeV/M)^2 x %.3g (largest of |a| M^2 at 1..3.16 TeV)" % (name, LADDER7[j], a[j], POWER_C, aref))
+            elif bound > 0 and a[j] >= SIZE_CLASSES[-1]:
+                st["ii:max |a|/((1TeV/M)^2 aref) %s" % name] = max(st.get("ii:max |a|/((1TeV/M)^2 aref) %s" % name, 0.0), a[j] / (bound / POWER_C))
+        if name == "2LB":
+            for j in (4, 5, 6):
+                st["ii:max |a_2LB| at M>=10TeV"] = max(st.get("ii:max |a_2LB| at M>=10TeV", 0.0), a[j])
         if literal_ok and a[0] > 0:
             out["keys"].add(("ii", name, cs[0]["ytype"], cs[0]["p"][7], sg[0] > 0))
         out["keys"].add(("ii-any", name, cs[0]["ytype"], cs[0]["p"][7]))
@@ -412,10 +429,10 @@ def run(ctx):
         ctx.sample("(ii) literal step failure at a zero crossing, envelope holds (benign): " + examples["ex_zero_crossing"])
     if "ex_first_rung" in examples:
         ctx.sample("(ii) literal step failure of the first rung, decouples from 3.16 TeV on (benign): " + examples["ex_first_rung"])
-    print("[C10] (i) %d families x %d m_h values, rejected %d; (ii) %d families x %d rungs, rejected (tachyon) %d = %.1f%%, skipped (massless h) %d; constructions %d"
+    print("[C10] (i) %d families x %d m_h values, rejected %d; (ii) %d families x %d rungs (+3 half steps), rejected (tachyon) %d = %.1f%%, skipped (massless h) %d; constructions %d"
           % (tot["fam_i"], len(MH_LADDER), tot["thrown_i"], tot["fam_ii"], len(M_LADDER), tot["thrown_ii"],
              100.0 * tot["thrown_ii"] / max(1, tot["fam_ii"]), tot["massless"], tot["evals"]))
-    print("[C10] (ii) literal per-step failures that are correct behaviour (not reported): %d at a zero crossing, %d on the first rung; bosonic rounding-noise step failures (known finding): %d"
+    print("[C10] (ii) literal per-step failures that are correct behaviour (not reported): %d at a zero crossing, %d on the first rung; failures of bosonic values < 2e-12 (size-class keys, known finding where registered): %d"
           % (tot["zero_crossing"], tot["first_rung"], tot["noise"]))
     print("[C10] %s" % {k: float("%.3g" % v) for k, v in sorted(stats.items())})
     if tot["thrown_ii"] > 0.5 * tot["fam_ii"] or tot["thrown_i"] > 0.5 * tot["fam_i"]:
@@ -423,7 +440,7 @@ def run(ctx):
     ctx.assumptions += [
         "(i) 'identical' = spread along the m_h ladder <= 1e-12 x sum of |terms| (h, H, A, H+, SM pieces as split by the library)",
         "(ii) decision = finite + envelope |a_m| <= max_k 0.45^(m-k)|a_k| + literal decoupling from 3.16 TeV on when the first step fails; literal per-step failures at a zero crossing / on the first rung are counted, not reported",
-        "(ii) step failures of the bosonic part with |a| < 2e-15 or within 8x the measured rounding noise are the known rounding-noise finding (2LB only); every other failure of the decision is a violation",
+        "(ii) the rounding-noise excuse of the bosonic part does not depend on the code under test: a failing 2LB value below 2e-12 carries its magnitude class (|a|<2e-15, <2e-14, <2e-13, <2e-12: constants of the check), Yukawa type, tan(beta) and rung in the key, and only the combinations the original shows are registered as known finding; values >= 2e-12, and |a| > 100 (1 TeV/M)^2 x (|a| M^2 at 1..3.16 TeV) are violations",
         "the SM input set (default / complete alternate set: MW, MZ, alpha_em, alpha_s, fermion masses) is a dimension of (i) and a factor of (ii); every harness process evaluates both sets interleaved, every 4th process is repeated in reversed order and compared bitwise",
         "a constructor exception other than EPhysicalProblem (tachyon) on a lattice point is a violation (valid input refused)",
         "SM Higgs mass is set to the model's own Mhh(0) by a second construction (harness option mhsm=auto)"]
@@ -451,7 +468,9 @@ def replay(ctx, path):
         print("replay: holds now")
         return 0
     o = eval_families([(part, cs)])
-    hit = [f for f in o["fails"] if f[0] == d["key"]] or [f for f in o["fails"] if "|a|<2e-15" not in f[0]]
+    import fnmatch
+    fails = [f for f in o["fails"] if f[0] == d["key"] or not any(fnmatch.fnmatchcase(f[0], fd["key"]) for fd in ctx.findings)]
+    hit = [f for f in fails if f[0] == d["key"]] or fails
     for key, what, _ in hit:
         print("replay: [%s] %s" % (key, what))
     if hit:
